@@ -150,6 +150,14 @@ CHECKS["C18"] = dict(
          "copy loop is control dependent on the capacity byte and the count on capacity and input. Does NOT decide the characters written to stdout.",
     design="DESIGN.md §6 C18")
 
+CHECKS["C17"] = dict(
+    technique="format-literal/argument pairing on the syn ASTs of the print actions cross-checked against the MIR borrow sequence; type facts (&VM everywhere); abstract interpretation of the three `print mem` productions (affine closed forms of the range ends, interval proof of every memory index); finite-state evaluation of the column counter; MIR value tracing in the driver",
+    text="Decides: every label of `print reg`/`print flags` is followed by the value of the register/flag it names (12 + 9 pairs, resolved by the compiler), in {:04X} / 0-1 / "
+         "{:02X} format; the printer, the prompt and every print action can only read the machine; the printed range is exactly a..=b, a..=a+n, 16*DS..=16*DS+n in closed form "
+         "for all numerals and DS, with every vm.mem index proved < 2^20 (backwards and overflowing ranges are diverted); the PRINT arm and the prompt use one parser object and "
+         "the executing instruction's text; the assembler rejects a+n >= 2^20; 16 bytes per row. Does NOT decide diagnostic texts.",
+    design="DESIGN.md §6 C17")
+
 NOT_YET = {}
 
 
